@@ -176,6 +176,47 @@ func C16(r *core.Run) {
 			r.Violate("conversion:invalid", fmt.Sprintf("invalid/special colour %#x: Valid=%v IsRGB=%v Hex=%d RGB=%d,%d,%d CSS=%q TrueColor=%#x", uint64(c), c.Valid(), c.IsRGB(), c.Hex(), r1, g1, b1, c.CSS(), uint64(c.TrueColor())), uint64(c))
 		}
 	}
+	// FromImageColor for the other colour models of image/color (16-bit channels that are not
+	// byte-replicated, translucent, grey, CMYK, YCbCr): the result is what the standard
+	// library's own 8-bit conversion (color.RGBAModel) gives for the three colour channels
+	{
+		nimg := r.Pick(200000, 5000000)
+		core.Parallel(16, func(w int) {
+			for i := w; i < nimg; i += 16 {
+				rg := r.Rand("img", i)
+				u16 := func() uint16 { return uint16(rg.IntN(1 << 16)) }
+				u8 := func() uint8 { return uint8(rg.IntN(256)) }
+				var col ic.Color
+				kind := ""
+				switch i % 8 {
+				case 0:
+					a := u16()
+					col, kind = ic.RGBA64{R: uint16(rg.IntN(int(a) + 1)), G: uint16(rg.IntN(int(a) + 1)), B: uint16(rg.IntN(int(a) + 1)), A: a}, "RGBA64"
+				case 1:
+					col, kind = ic.RGBA64{R: u16(), G: u16(), B: u16(), A: 0xffff}, "RGBA64-opaque"
+				case 2:
+					col, kind = ic.NRGBA64{R: u16(), G: u16(), B: u16(), A: u16()}, "NRGBA64"
+				case 3:
+					col, kind = ic.NRGBA{R: u8(), G: u8(), B: u8(), A: u8()}, "NRGBA-translucent"
+				case 4:
+					col, kind = ic.Gray16{Y: u16()}, "Gray16"
+				case 5:
+					col, kind = ic.CMYK{C: u8(), M: u8(), Y: u8(), K: u8()}, "CMYK"
+				case 6:
+					col, kind = ic.YCbCr{Y: u8(), Cb: u8(), Cr: u8()}, "YCbCr"
+				default:
+					col, kind = ic.Gray{Y: u8()}, "Gray"
+				}
+				want8 := ic.RGBAModel.Convert(col).(ic.RGBA)
+				want := tcell.NewRGBColor(int32(want8.R), int32(want8.G), int32(want8.B))
+				if got := tcell.FromImageColor(col); got != want {
+					r.Violate("conversion:fromimagecolor:"+kind, fmt.Sprintf("FromImageColor(%s %+v) = #%06x, the 8-bit conversion of image/color gives #%06x", kind, col, got.Hex(), want.Hex()), nil)
+					return
+				}
+			}
+		})
+		r.CaseN(int64(nimg), int64(nimg))
+	}
 	for _, s := range []string{"", "nosuchcolor", "#12345", "#1234567", "#zzzzzz", "123456", "Red"} {
 		if c := tcell.GetColor(s); c != tcell.ColorDefault {
 			r.Violate("conversion:getcolor-unknown", fmt.Sprintf("GetColor(%q) = %#x, expected ColorDefault", s, uint64(c)), s)
